@@ -636,4 +636,25 @@ Proof.
     end.
 Qed.
 
+(** ** The first message always fits
+
+    A blocking send on a channel that is open, empty and has capacity at least
+    one does not block (the handshake sends ABORT / WELCOME: nothing else has
+    been queued for that peer). *)
+Theorem first_message_fits (s : state) i l c v k :
+  outcome s = None ->
+  nth_error (procs s) i = Some l ->
+  code l = ASend c v k ->
+  c_closed (chans s c) = false ->
+  c_buf (chans s c) = [] ->
+  1 <= c_cap (chans s c) ->
+  exists s', step s (EInt i 0) = Some s' /\ outcome s' = None.
+Proof.
+  intros Ho Hn Hc Hcl Hb Hcap. unfold Machine.step. rewrite Ho, Hn.
+  unfold step_int. rewrite Hc. unfold send_step. rewrite Hcl.
+  unfold has_room. rewrite Hb. simpl.
+  destruct (c_cap (chans s c)) eqn:E; [lia|]. simpl.
+  eexists. split; [reflexivity|]. simpl. exact Ho.
+Qed.
+
 End Facts.
